@@ -50,9 +50,8 @@ class TypeNormalizer:
         if UnionType and isinstance(t, UnionType):
             return self(t.__args__, fn)
         elif origin is type:
-            # typing.Any counts as object inside the argument too:
-            # type[Any], type[list[Any]], type[dict[str, Any]]
-            return type[tuple(_any_to_object(a) for a in t.__args__)]
+            # type[Any], type[list[Any]], type[int | str]: see below
+            return type[tuple(_normalize_type_argument(a) for a in t.__args__)]
         elif origin and getattr(t, "__args__", None) is None:
             return t
         elif origin is not None:
@@ -80,32 +79,33 @@ class TypeNormalizer:
             return t
 
 
-def _any_to_object(t):
+def _normalize_type_argument(t):
+    """Normalize what is written inside type[...].
+
+    typing.Any counts as object and a union (typing.Union[A, B] or A | B)
+    becomes an ovld Union, at any depth; generic aliases stay generic aliases.
+    """
     if t is typing.Any:
         return object
     args = getattr(t, "__args__", None)
     origin = getattr(t, "__origin__", None)
-    if args and origin is not None and typing.Any in _flatten(args):
+    if (UnionType and isinstance(t, UnionType)) or origin is typing.Union:
+        return Union[tuple(_normalize_type_argument(a) for a in args)]
+    if args and origin is not None and isinstance(args, tuple):
         new_args = tuple(
-            [_any_to_object(x) for x in a]
+            [_normalize_type_argument(x) for x in a]
             if isinstance(a, list)
-            else _any_to_object(a)
+            else _normalize_type_argument(a)
             for a in args
         )
-        try:
-            return origin[new_args if len(new_args) != 1 else new_args[0]]
-        except TypeError:  # pragma: no cover
-            return t
+        if any(a is not b for a, b in zip(args, new_args) if not isinstance(a, list)) or any(
+            isinstance(a, list) and a != b for a, b in zip(args, new_args)
+        ):
+            try:
+                return origin[new_args if len(new_args) != 1 else new_args[0]]
+            except TypeError:  # pragma: no cover
+                return t
     return t
-
-
-def _flatten(args):
-    for a in args:
-        if isinstance(a, (list, tuple)):
-            yield from _flatten(a)
-        else:
-            yield a
-            yield from _flatten(getattr(a, "__args__", None) or ())
 
 
 normalize_type = TypeNormalizer()
